@@ -722,6 +722,46 @@ impl<T: El> MapWorld<T> {
                 if self.m.capacity() < n {
                     vbail!("contract", "with_capacity({}) gives capacity {}", n, self.m.capacity());
                 }
+                // the constructors of the default hasher type (`new`, `with_capacity`, `Default`), maps and sets:
+                // same capacity as the explicit-hasher constructor, nothing allocated for an empty one, and
+                // (whatever the random hasher state) the first min(n, 64) insertions fit without reallocation
+                {
+                    let cap = self.m.capacity();
+                    let a0 = alloc::allocs();
+                    let e1 = window(griddle::HashMap::<T, T>::new);
+                    let e2 = window(griddle::HashSet::<T>::new);
+                    let e3: griddle::HashMap<T, T> = window(Default::default);
+                    let e4: griddle::HashSet<T> = window(Default::default);
+                    if alloc::allocs() != a0 || e1.capacity() != 0 || e2.capacity() != 0 || e3.capacity() != 0 || e4.capacity() != 0 || !e1.is_empty() || !e2.is_empty() {
+                        vbail!("contract", "new() / default() allocate or report capacity {} {} {} {}", e1.capacity(), e2.capacity(), e3.capacity(), e4.capacity());
+                    }
+                    drop((e1, e2, e3, e4));
+                    let mut dm = window(|| griddle::HashMap::<T, T>::with_capacity(n));
+                    let mut ds = window(|| griddle::HashSet::<T>::with_capacity(n));
+                    if dm.capacity() != cap || ds.capacity() != cap {
+                        vbail!("contract", "with_capacity({}): map {} / set {} but with_capacity_and_hasher gives {}", n, dm.capacity(), ds.capacity(), cap);
+                    }
+                    let k = if T::ZST { n.min(1) } else { n.min(64) };
+                    let a1 = alloc::allocs();
+                    window(|| {
+                        for i in 0..k as u32 {
+                            dm.insert(harness(|| T::mk(i, true)), harness(|| T::mk(i % 3, false)));
+                            ds.insert(harness(|| T::mk(i, true)));
+                        }
+                    });
+                    if alloc::allocs() != a1 || dm.len() != k || ds.len() != k || dm.capacity() != cap || ds.capacity() != cap {
+                        vbail!("contract", "with_capacity({}) (default hasher): {} insertions allocated {} time(s), len {} / {}, capacity {} / {}", n, k, alloc::allocs() - a1, dm.len(), ds.len(), dm.capacity(), ds.capacity());
+                    }
+                    for i in 0..k as u32 {
+                        let kk = harness(|| T::mk(i, true));
+                        let ok = dm.get(&kk).map(|v| v.id()) == Some(T::norm(i % 3)) && ds.contains(&kk);
+                        harness(|| drop(kk));
+                        if !ok {
+                            vbail!("mismatch", "with_capacity({}) (default hasher): element {} is not found", n, i);
+                        }
+                    }
+                    window(|| drop((dm, ds)));
+                }
                 // n insertions without reallocation
                 if n <= 4096 {
                     self.fill(n, "with_capacity")?;
